@@ -10,6 +10,10 @@ FORMS = ["import pk", "import pk.sub", "import pk.sub as s", "import pk.sub.deep
          "from pk.sub.leaf import val as v", "from pk import sub, mod", "from pk.sub import deep, attr as at", "from pk.sub.deep import attr",
          "from . import mod", "from .sub import leaf", "from .mod import val", "from . import mod as mm, sub", "from .sub.deep import attr as da",
          "from .. import sub as up", "from ..sub import leaf as ul", "from ..mod import val as uv"]
+# imports next to the constructs that need the OTHER helper module (while -> itertools, for + break -> the iterator wrapper preset)
+WITH_LOOPS = ["n = 2\nwhile n:\n    n -= 1\nimport pk.sub as s\nL(s.__name__)", "import pk2 as q\nn = 1\nwhile n:\n    n -= 1\n    import pk.mod as m\nL(q.__name__, m.__name__)",
+              "for i in [1, 2]:\n    if i == 2:\n        break\n    import pk.sub.leaf as lf\nL(lf.__name__)",
+              "from pk import mod\nn = 1\nwhile n:\n    n -= 1\nfor j in [1]:\n    break\nimport pk2\nL(mod.__name__, pk2.__name__)"]
 SEQUENCES = ["import pk.sub\nimport pk.sub\nfrom pk import sub as again", "from pk import mod\nimport pk.mod as m2\nimport pk",
              "import pk2\nimport pk.sub.deep as d\nfrom pk.sub import deep"]
 
@@ -109,7 +113,7 @@ def main(argv):
         ck.audit("OlVerif/Audit/C14.lean")
     failing = []
     pairs = []
-    for f in FORMS + SEQUENCES:
+    for f in FORMS + SEQUENCES + WITH_LOOPS:
         level = 0
         if f.startswith('from ..'):
             level = 2
